@@ -492,7 +492,13 @@ Ltac br L :=
     assert (Hs : stack st = rev s) by (subst s; rewrite rev_involutive; reflexivity);
     assert (Ha : rev (alt_stack st) = a) by reflexivity;
     generalize (L st s a Hs Ha); clearbody s a; clear Hs Ha;
-    destruct a as [|? ?]; destruct s as [|? [|? [|? [|? [|? [|? ?]]]]]]; intros L'; exact L'
+    destruct a as [|? ?]; destruct s as [|? [|? [|? [|? [|? [|? ?]]]]]]; intros L';
+    first
+    [ exact L'
+    | revert L'; cbv zeta; cbn [spec_op main_op un bin binb hashop bitop too_big over_usize andb];
+      repeat match goal with |- context [if ?c then _ else _] => destruct c end;
+      repeat match goal with |- context [match nth_error ?r ?k with _ => _ end] => destruct (nth_error r k) end;
+      intros L'; exact L' ]
   end.
 
 Ltac solve_op idx :=
